@@ -592,12 +592,22 @@ func (q *BufferedChannelQueue[T]) loadFromPool() {
 				break
 			}
 		}
+		isAnyLeft := q.pool.Count() > 0
 		q.lock.Unlock()
 		verifPoint("bcq.load.beforeSleep", q)
 
 		time.Sleep(q.loadFromPoolDuration)
 		verifPoint("bcq.load.afterSleep", q)
 
+		// The channel was full (or nobody was waiting on an unbuffered one): the wake-ups of the consumers that
+		// are blocked by now have been used up by this pass, so try again after the interval.
+		if isAnyLeft {
+			if q.loadFromPoolDuration <= 0 {
+				// No interval configured: do not spin on our own account
+				time.Sleep(time.Millisecond)
+			}
+			q.notifyWorkers()
+		}
 	}
 }
 
